@@ -6,6 +6,8 @@ import (
 	"math"
 	"regexp"
 	"strings"
+
+	"github.com/remieven/ysgo/markup"
 )
 
 // The reference interpreter. It is deliberately not built like the implementation (a stack of
@@ -35,6 +37,8 @@ type OptObs struct {
 	// TextFixed is false when the text contains the display of a number whose form the
 	// property does not fix, or the result of an unmodelled function.
 	TextFixed bool
+	// Attrs holds the markup attributes of an option of the real runner (never set by the model).
+	Attrs []markup.Attribute
 }
 
 // Obs is one observation: what a call of Next must return.
